@@ -183,6 +183,11 @@ def build_world(sc):
         if "req" in ev:
             w.net.log.append(("srv", w.clock.seconds(), ev["api"], ev))
     cl.on_event.append(srv_event)
+
+    def srv_recv(ev):
+        ev["recv_idx"] = len(w.net.log)
+        w.net.log.append(("srv_recv", w.clock.seconds(), ev["api"], ev["seq"]))
+    cl.on_receive.append(srv_recv)
     if sc.get("stored") is not None:
         cl.offsets[(GROUP, TOPIC, PART)] = (sc["stored"], "")
     for f in sc["faults"]:
